@@ -310,6 +310,18 @@ struct CallerFrame {
     bool built = false;
 };
 
+// one frame carries exactly the declared points and channels
+bool frame_complete(const Snapshot &s, const SnapFrame &f, int64_t used, int64_t aused, const std::vector<std::string> &L, const std::vector<std::string> &AL) {
+    if (static_cast<int64_t>(f.pts.size()) != used || L.size() != f.pts.size()) return false;
+    for (size_t i = 0; i < f.pts.size(); ++i) if (f.pts[i].name != L[i]) return false;
+    if (aused == 0) { for (auto &sub : f.subs) if (!sub.empty()) return false; return true; }
+    if (f.subs.empty() || f.subs.size() != s.h.nbAnalogByFrame || AL.size() != static_cast<size_t>(aused)) return false;
+    for (auto &sub : f.subs) {
+        if (static_cast<int64_t>(sub.size()) != aused) return false;
+        for (size_t c = 0; c < sub.size(); ++c) if (sub[c].name != AL[c]) return false;
+    }
+    return true;
+}
 // every frame carries exactly the declared points and channels ("complete frames")
 bool frames_complete(const Snapshot &s) {
     int64_t used = 0, aused = 0;
@@ -317,16 +329,7 @@ bool frames_complete(const Snapshot &s) {
     const std::vector<std::string> *L = get_strs(s, "POINT", "LABELS");
     const std::vector<std::string> *AL = get_strs(s, "ANALOG", "LABELS");
     if (!L || !AL) return false;
-    for (auto &f : s.frames) {
-        if (static_cast<int64_t>(f.pts.size()) != used || L->size() != f.pts.size()) return false;
-        for (size_t i = 0; i < f.pts.size(); ++i) if (f.pts[i].name != (*L)[i]) return false;
-        if (aused == 0) { for (auto &sub : f.subs) if (!sub.empty()) return false; continue; }
-        if (f.subs.empty() || f.subs.size() != s.h.nbAnalogByFrame || AL->size() != static_cast<size_t>(aused)) return false;
-        for (auto &sub : f.subs) {
-            if (static_cast<int64_t>(sub.size()) != aused) return false;
-            for (size_t c = 0; c < sub.size(); ++c) if (sub[c].name != (*AL)[c]) return false;
-        }
-    }
+    for (auto &f : s.frames) if (!frame_complete(s, f, used, aused, *L, *AL)) return false;
     if (s.frames.empty()) return true;
     // an object whose frames carry neither points nor samples has no frame content the format can hold
     if (used == 0 && aused == 0) return false;
@@ -873,8 +876,10 @@ void World::doFillGaps(const Step &st, StepRecord &rec) {
     bool any = false;
     for (size_t f = 0; f < cur.frames.size() && !stop; ++f) {
         {   // a frame that does not carry exactly the declared shape (gap, or gap that only received later columns)
-            Snapshot one = cur; one.frames.assign(1, cur.frames[f]);
-            if (frames_complete(one)) continue;
+            int64_t u = 0, a = 0;
+            const std::vector<std::string> *L = get_strs(cur, "POINT", "LABELS"), *AL = get_strs(cur, "ANALOG", "LABELS");
+            if (get_int(cur, "POINT", "USED", u) && get_int(cur, "ANALOG", "USED", a) && L && AL && (u > 0 || a > 0) &&
+                frame_complete(cur, cur.frames[f], u, a, *L, *AL)) continue;
         }
         bool shaped = false; // is there a declared shape to fill with?
         { int64_t u = 0, a = 0; get_int(cur, "POINT", "USED", u); get_int(cur, "ANALOG", "USED", a); shaped = u > 0 || a > 0; }
